@@ -697,6 +697,23 @@ theorem replaceInDict_links (s : LS) (old new : Nat) (s' : LS) (hM : Mirror s) (
   rw [← e, ← e3] at r1 r2
   exact ⟨r1, r2⟩
 
+/-! ## why shared ids (several entries in one per-usage-pattern dict) cannot work -/
+
+/-- what `add_child_to_direct_children_with_id` enforces: no two listed children with the same id -/
+def ChiUniq (s : LS) : Prop :=
+  ∀ a c₁ c₂, c₁ ∈ (s.get a).chi → c₂ ∈ (s.get a).chi → (s.get c₁).cont = (s.get c₂).cont → c₁ = c₂
+
+/-- **two values sharing an id and an ancestor cannot both be listed by it**: de-duplication by id and
+mirrored links are incompatible as soon as two attached values share an id (two entries of the dict of
+a job reachable from two usage patterns) and a recorded ancestor — the root of finding D2 -/
+theorem shared_id_contradicts_mirror (s : LS) (hU : ChiUniq s) (v₁ v₂ a : Nat) (sl : Slot)
+    (h₁ : (s.get v₁).cont = some sl) (h₂ : (s.get v₂).cont = some sl) (hne : v₁ ≠ v₂)
+    (ha₁ : a ∈ (s.get v₁).anc) (ha₂ : a ∈ (s.get v₂).anc) : ¬ Mirror s := by
+  intro hM
+  have c₁ := hM.1 v₁ ((attached_iff s v₁).mpr ⟨sl, h₁⟩) a ha₁
+  have c₂ := hM.1 v₂ ((attached_iff s v₂).mpr ⟨sl, h₂⟩) a ha₂
+  exact hne (hU a v₁ v₂ c₁ c₂ (by rw [h₁, h₂]))
+
 /-! ## the operations of the engine -/
 
 /-- an attached value is what its slot holds (so ids are unique) -/
